@@ -632,6 +632,14 @@ class MinMaxAggregator:
             )
             return [stm]
 
+        # the value itself is gone after the replacement, nothing else may refer to it
+        if varname in map(
+            lambda x: x.name,
+            chain.from_iterable(collect_ast(c, "Variable") for c in chain(rest_cond, term_tuple[1:])),
+        ):
+            log.info(f"Cannot use chaining in {loc2str(stm.location)} as the value is used in another place.")
+            return [stm]
+
         replacement = self._create_replacement(
             minmaxpred,
             minimize,
@@ -719,6 +727,13 @@ class MinMaxAggregator:
             )
             return [elem]
 
+        # the value itself is gone after the replacement, nothing else may refer to it
+        if varname in map(
+            lambda x: x.name,
+            chain.from_iterable(collect_ast(c, "Variable") for c in chain(rest_cond, term_tuple[1:])),
+        ):
+            return [elem]
+
         replacement = self._create_replacement(
             minmaxpred,
             minimize,
@@ -753,7 +768,7 @@ class MinMaxAggregator:
             if (
                 b.ast_type == ASTType.Literal
                 and b.atom.ast_type == ASTType.BodyAggregate
-                and b.atom.function in (AggregateFunction.Sum, AggregateFunction.SumPlus)
+                and b.atom.function == AggregateFunction.Sum  # not #sum+: it skips the negative links of a chain
             ):
                 body.append(self._replace_results_in_sum_agg(b))
             else:
